@@ -70,6 +70,12 @@ def scenarios(thorough):
     # a process type added twice (plus distinct ones), labels with a repeated key
     dup = dict(LAUNCH3, processes=LAUNCH3["processes"] + [LAUNCH3["processes"][0], LAUNCH3["processes"][1]], labels=LAUNCH3["labels"] + [["k1", "again"]])
     out.append({"phase": "build", "label": "duplicate-process-types", "script": {"build": {"kind": "pass", "launch": dup, "store": STORE3}}})
+    # several SBOMs of the same format in one call (they target the same file: which one survives
+    # must not depend on the process)
+    dup_sb = [["cdx", "{\"first\":true}"], ["cdx", "{\"second\":true}"], ["spdx", "{\"s\":1}"], ["spdx", "{\"s\":2}"], ["syft", "{\"y\":1}"], ["cdx", "{\"third\":true}"]]
+    out.append({"phase": "build", "label": "duplicate-sbom-formats:write_sboms", "script": {"build": {"kind": "pass", "ops": [{"op": "cached", "name": "a", "launch": True}, {"op": "write_sboms", "name": "a", "sboms": dup_sb}]}}})
+    out.append({"phase": "build", "label": "duplicate-sbom-formats:handle", "script": {"build": {"kind": "pass", "ops": [{"op": "handle", "name": "a", "types": [True, True, True], "strategy": "recreate", "result": dict(RESULT3, sboms=dup_sb)}]}}})
+    out.append({"phase": "build", "label": "duplicate-sbom-formats:build-result", "script": {"build": {"kind": "pass", "launch": LAUNCH3, "build_sboms": dup_sb, "launch_sboms": list(reversed(dup_sb))}}})
     # a restored layer whose env directories hold aliasing files (NAME and NAME.override, written by
     # other tooling), read and written back by three routes
     pre = {"a.toml": "[metadata]\nk1 = 1\nk2 = 2\nk3 = 3\n", "a/env/RAILS_ENV": "production", "a/env/RAILS_ENV.override": "staging",
